@@ -175,7 +175,9 @@ def generate(rng, tier):
             if boom and rng.random() < 0.4:
                 op["parts"].insert(rng.randrange(len(op["parts"]) + 1), {"boom": 1})
             if rng.random() < 0.2:
-                op["sub"] = True        # built as an object of a user's subclass of CHText
+                # built as an object of a user's subclass of CHText (two modules of the application, each with a
+                # text class of its own: 2 is the other one)
+                op["sub"] = True if rng.random() < 0.7 else 2
             if rng.random() < 0.15:
                 op = {"op": "chunk", "dst": dst, "c": rng.randrange(ncolors), "s": gen_str(rng, 8) or "k"}
         elif r < 0.24:
@@ -335,6 +337,7 @@ class World:
         self.fmt_of_style = {stl: f for stl, f in zip(self.styles, self.fmts)}
         self.max_cells = LONG_MAX_CELLS if trace.get("long") else MAX_CELLS
         self.sub_cls = type("UserText", (color.CHText,), {"__doc__": "a user's subclass that changes nothing"})
+        self.sub_cls2 = type("OtherUserText", (color.CHText,), {"__doc__": "another module's subclass, also changing nothing"})
         self._foreign = None
         self.real = {}      # handle -> real object
         self.model = {}     # handle -> MObj (shared between aliases)
@@ -518,7 +521,7 @@ def apply(w, op):
             return
         parts = [w.real_operand(p) for p in op["parts"]]
         try:
-            x = (w.sub_cls if op.get("sub") else CHText)(*parts)
+            x = (w.sub_cls2 if op.get("sub") == 2 else w.sub_cls if op.get("sub") else CHText)(*parts)
             if op.get("sub"):
                 st["subclass_objects"] = st.get("subclass_objects", 0) + 1
             raised = None
